@@ -18,6 +18,7 @@ const (
 	HashNative  HashMode = iota // the real runtime functions
 	HashDet                     // deterministic hash of the key's Go-equality-canonical encoding
 	HashCollide                 // HashDet reduced to CollideN distinct values
+	HashSplit                   // half of the keys collide into CollideN values, the other half keep HashDet
 )
 
 var (
@@ -63,6 +64,8 @@ func Fastrand() uint32 {
 
 func reduce(h uint64, seed uintptr) uintptr {
 	if hashMode == HashCollide {
+		h = h % collideN
+	} else if hashMode == HashSplit && mix64(h^0x5117)&1 == 0 {
 		h = h % collideN
 	}
 	return uintptr(mix64(h ^ mix64(uint64(seed)+0x1234567)))
